@@ -97,6 +97,10 @@ def run(ck, fx, cg, tier):
     _recursion(ck, fx, cg, reach)
     # ------------------------------------------------------------ atomic print
     _atomic_print(ck, fx, cg)
+    # ------------------------------------------------------------ fault detection (VM templates)
+    from . import c05_vm
+    c05_vm.fault_rules(ck, fx, cg, "R10.faults")
+    c05_vm.fault_rows(ck, fx, cg, "R10.faults")
 
 
 def _recursion(ck, fx, cg, reach):
